@@ -48,7 +48,10 @@ RULE = ('Position: for each known protocol version (iterated from '
         'around 741/748, first and last (thorough: also every other version '
         'with 2 ids).  Cases are distinct by construction; a case is '
         'non-trivial unless all its coordinates / its word / its record '
-        'fields are zero.  Histories: the probe through one long-lived context '
+        'fields are zero.  Sessions: six orders of three versions (either side '
+        'of 741 and of the layout switch) are coded one after the other in '
+        'a throw-away child process that never coded anything before '
+        '(positions, whole packets, records).  Histories: the probe through one long-lived context '
         'per version used alternately oldest/newest, and through one context '
         're-assigned in place across all versions, must show the layout a '
         'fresh context shows; one packet object written (write_packet '
@@ -1004,6 +1007,45 @@ def run_races(ctx, ex):
         'points': 'every source line of ' + ', '.join(RACE_MODULES)}
 
 
+# -- sessions of different versions one after the other in ONE process ----------
+# The enumeration below is farmed out to pool workers in a seed-dependent
+# order, so whether one process ever codes records on both sides of 741 (or
+# positions on both sides of the layout switch) would be luck.  Here it is by
+# construction: each order of versions runs in a throw-away child process that
+# has never coded anything before.
+
+SESSION_ORDERS = ((735, 751, 735), (751, 735, 751), (340, 757, 340),
+                  (757, 340, 757), (404, 477, 404), (477, 404, 477))
+
+
+def _sessions_in_child(proto, order):
+    from vf.runner import Ctx
+    sub = Ctx(*proto)
+    E = env()
+    for v in order:
+        layout = check_layout(sub, E, v)[0]
+        if layout is not None:
+            w_position(sub, ('pos', v, layout, False))
+        w_packet(sub, ('pkt', v))
+        for x in (0, 15):
+            w_record(sub, ('rec', v, x, 'few'))
+    return sub.export()
+
+
+def check_session_orders(ctx):
+    for order in SESSION_ORDERS:
+        d = explore.in_child(_sessions_in_child,
+                             (ctx.pid, ctx.tier, ctx.seed, ctx.level), order)
+        before = set(ctx.violations)
+        ctx.absorb(d)
+        for k in set(ctx.violations) - before:
+            rec = ctx.violations[k]
+            rec['what'] += ('  (Found in a process that coded for the '
+                            'protocols %s in this order.)' % (list(order),))
+            rec['case'] = {'op': 'sessions', 'order': list(order)}
+        ctx.cls('sessions of several versions in one process, in order')
+
+
 def run(ctx):
     use_repo()
     ex = explore.Explorer(memo=False)   # forks its workers before anything runs
@@ -1024,6 +1066,8 @@ def _run(ctx, ex):
         ctx.outcome('probe encode=%s decode=%s' % (enc[:7], dec[:7]))
     ctx.note_distinct(len(E.known))
     first_b = check_monotone(ctx, E, observed)
+    if not ctx.violations:
+        check_session_orders(ctx)
     if not ctx.violations:
         check_context_histories(ctx, E, observed)
         check_packet_reuse(ctx, E)
@@ -1120,6 +1164,9 @@ def replay(ctx, case):
             viol.append((x.failure[0], '%s: %s' % x.failure))
         for key, what in viol:
             ctx.violation('race %s' % key, what, case)
+        return
+    if op == 'sessions':
+        check_session_orders(ctx)
         return
     if op == 'packet-reuse':
         err = packet_reuse_err(E, case['first'], case['second'])
